@@ -74,6 +74,21 @@ def state_of(E):
             tuple((b.index, raw(b.weight)) for b in E.ballots[:40]))
 
 
+def limited_count(E, seconds=None):
+    """E.count() under the CPU budget; raises Budget when it runs out (callers treat that as 'not explored')"""
+    import signal
+    def on_alarm(signum, frame):
+        raise Budget()
+    old = signal.signal(signal.SIGALRM, on_alarm)
+    signal.setitimer(signal.ITIMER_REAL, seconds or COUNT_LIMIT)
+    try:
+        with contextlib.redirect_stdout(io.StringIO()):
+            E.count()
+    finally:
+        signal.setitimer(signal.ITIMER_REAL, 0)
+        signal.signal(signal.SIGALRM, old)
+
+
 def count_record(text, o, want_weights=True):
     """count; returns (outcome string, E or None). outcome = 'OK' | 'CRASH <ExcName>' | 'CRASH Hang' | 'CRASH Timeout'.
     Hang = the counting state did not change during 1.5 s after the budget ran out (a stalled loop);
